@@ -14,7 +14,7 @@ date   = (full y m d) | (md m d) | (dow k) | today | tomorrow | none
 time   = (hms h m us) | noon | midnight | sunrise | sunset | none
 suntab = ((rise|set day t|none) …)      crontab = ((id t 0|1) …)
 cfg    = (stateActive timeActive <specs> holdOff|none saFirst startup)
-events = ((occ id t wall trigOk env F|Z|T|R ((k F|Z|T|R) …)) | direct …)
+events = ((occ id t wall trigOk env F|Z|T|R ((k F|Z|T|R) …)) | direct | (g task <event>) …)   (task: legacy only)
 ```
 -/
 namespace PsModel.C07
@@ -93,6 +93,11 @@ def ev? : Sexp → Option Ev
     pure (.occ ⟨← id.nat?, ← t.nat?, ← wall.int?, ← ok.bool?, ← env.bool?, ← aval? sa, ← Sexp.listOf? stalePair? stale⟩)
   | _ => none
 
+/-- an event tagged with the legacy trigger task it belongs to: `(g k <ev>)`; untagged = task 0 -/
+def gev? : Sexp → Option (Nat × Ev)
+  | .list [.atom "g", k, e] => do pure (← k.nat?, ← ev? e)
+  | e => do pure (0, ← ev? e)
+
 def optNat? : Sexp → Option (Option Nat)
   | .atom "none" => some none
   | x => do pure (some (← x.nat?))
@@ -128,10 +133,10 @@ def handle (x : Sexp) : String :=
       | none => "raise"
     | _, _, _, _, _ => "err parse"
   | .list [.atom "legacy", .atom fl, cfg, evs, sunTab, cronTab] =>
-    match cfg? cfg, Sexp.listOf? ev? evs, params? sunTab cronTab with
+    match cfg? cfg, Sexp.listOf? gev? evs, params? sunTab cronTab with
     | some c, some es, some P =>
       let F := if fl == "rep" then Flags.repaired else if fl == "pre" then Flags.preFix else Flags.current
-      s!"model={showFlags (Legacy.run F P c es GState.init)} spec={showFlags (Spec.runs P c es [])}"
+      s!"model={showFlags (Legacy.runGroups F P c es (fun _ => GState.init))} spec={showFlags (Spec.runs P c (es.map (·.2)) [])}"
     | _, _, _ => "err parse"
   | .list [.atom "new", .atom fl, cfg, evs, sunTab, cronTab] =>
     match cfg? cfg, Sexp.listOf? ev? evs, params? sunTab cronTab with
